@@ -301,6 +301,12 @@ def getlineStr (value : Text) (s : IStream) : Text × IStream :=
     | _ :: r => (line, ⟨r, true⟩)
   else (value, s)
 
+/-- an optional sign in front of the digits -/
+def signSplit : Text → Bool × Text
+  | '-' :: rest => (true, rest)
+  | '+' :: rest => (false, rest)
+  | body => (false, body)
+
 /-- `std::stringstream(value) >> n` for a `size_t` whose current content is `cur`: an empty or blank
     text leaves `n` alone, a text without digits stores 0, overflow stores the maximum, a minus sign
     negates modulo 2^64; whatever follows the digits is ignored -/
@@ -308,10 +314,8 @@ def parseSize (cur : Nat) (v : Text) : Nat :=
   let body := v.dropWhile isSpace
   if body.isEmpty then cur
   else
-    let (neg, ds) := match body with
-      | '-' :: rest => (true, rest)
-      | '+' :: rest => (false, rest)
-      | _ => (false, body)
+    let neg := (signSplit body).1
+    let ds := (signSplit body).2
     let digs := ds.takeWhile Char.isDigit
     if digs.isEmpty then 0
     else
